@@ -88,7 +88,12 @@ func runC05(res *lib.Result, tier string, seed int64, args []string) error {
 	}
 	nCorpus := len(progs)
 	for i := 0; i < nProg; i++ {
-		progs = append(progs, genScopeProgram(root.Fork(uint64(i))))
+		src := genScopeProgram(root.Fork(uint64(i)))
+		if i%4 == 3 {
+			// several statements / blocks on one line: sibling scopes share a line
+			src = compactLayout(root.Fork(uint64(5000000+i)), src, i%8 == 7)
+		}
+		progs = append(progs, src)
 	}
 	for pi, src := range progs {
 		if pi < nCorpus {
